@@ -146,6 +146,7 @@ func c16Outbound(r *mc.Report, c c16Case, w *mwire, nodeP, peerP **mnode, peerVe
 	*nodeP = node
 	var peer *mnode
 	connId := uint16(0x1234)
+	var acceptedAt time.Time
 	if c.Outcome != "silent" {
 		peer = newMNode(w, mnodeOpts{keyIdx: 12, versions: peerVersions, puppet: func(from enode.ID, msg []byte) []byte {
 			if len(msg) == 0 || msg[0] != portalwire.OFFER {
@@ -163,6 +164,7 @@ func c16Outbound(r *mc.Report, c c16Case, w *mwire, nodeP, peerP **mnode, peerVe
 			case "declined":
 				return c16Accept(c.Ver, nkeys, nil, 0)
 			default:
+				acceptedAt = time.Now()
 				return c16Accept(c.Ver, nkeys, []int{0}, connId)
 			}
 		}})
@@ -258,6 +260,15 @@ func c16Outbound(r *mc.Report, c c16Case, w *mwire, nodeP, peerP **mnode, peerVe
 	}
 	// run to quiescence, then past every timeout (RPC 0.7 s x retries, dial 15 s, write 60 s)
 	w.pump(func() bool { return returned }, 30*time.Second, decide)
+	// While an accepted transfer is certainly still in progress (the peer never waits for the
+	// dial, or never reads), its slot must still be taken: a free slot would let a further
+	// transfer start, i.e. more than the limit in progress.
+	if (c.Outcome == "accept-never-waits" || c.Outcome == "accept-then-stall") && c.StopAt < 0 && c.Route != "gossip-full-queue" && !acceptedAt.IsZero() {
+		w.pump(func() bool { return time.Since(acceptedAt) > 2*time.Second }, 10*time.Second, decide)
+		if _, freeNow := node.P.VerifPermits(); freeNow > c.Limit-1 {
+			viol("never-more-than-the-limit-in-progress", fmt.Sprintf("outbound:%s:%s", c.Route, c.Outcome), fmt.Sprintf("2 virtual seconds after the peer accepted, with the transfer still in progress, %d of %d outbound slots are free", freeNow, c.Limit))
+		}
+	}
 	w.pump(func() bool { return false }, 5*time.Minute, decide)
 	_, free := node.P.VerifPermits()
 	rel := -1
